@@ -1051,8 +1051,8 @@ def run(tier, seed, replay=None):
         return rep.finish()
     rc, out, err = run_prog(model_bin("modeld_c07"), "", args=["--flags"])
     flags = out[0].strip() if out else "000000"
-    rep.cov["repairs_in_source"] = dict(zip(["surv_nbrecv", "resp_nb", "resp_wbusy", "resp_rclose", "msgq_nb", "msgq_resize", "resp_sbusy", "resp_wother", "resp_wstale"], flags))
-    flags = (flags + "000000000")[:9]
+    rep.cov["repairs_in_source"] = dict(zip(["surv_nbrecv", "resp_nb", "resp_wbusy", "resp_rclose", "msgq_nb", "msgq_resize", "resp_sbusy", "resp_wother", "resp_wstale", "msgq_get_runs_putq"], flags))
+    flags = (flags + "0000000000")[:10]
     nbfix, rnbfix, sbusyfix = flags[0] == "1", flags[1] == "1", flags[6] == "1"
     rng = random.Random(seed)
     n = 150 if tier == "quick" else 5000
